@@ -81,12 +81,26 @@ func (p *authProp) Assumptions() []string {
 	}
 }
 
+func hostOnly(h string) string {
+	if i := strings.LastIndex(h, ":"); i >= 0 {
+		return h[:i]
+	}
+	return h
+}
+
 var authRepos = []string{"lib/app", "team/tool", "x"}
 
 func (p *authProp) Gen(r *Rand, tier string, idx int) any {
 	ap := &AuthParams{}
 	nh := r.Range(2, 4)
 	names := []string{"reg-a.example", "reg-b.example:5000", "reg-c.example", "localhost:5001"}
+	if r.Chance(0.3) {
+		// registries that share a host name and differ in the port only
+		names = pick(r, [][]string{
+			{"localhost:5000", "localhost:5001", "localhost:5002", "reg-c.example"},
+			{"reg-a.example", "reg-a.example:5000", "reg-a.example:8443", "reg-b.example:5000"},
+		})
+	}
 	for i := 0; i < nh; i++ {
 		h := AuthHost{Name: names[i], Scheme: pick(r, []string{"none", "basic", "bearer-dist", "bearer-dist", "bearer-oauth2"}), ForeignAuth: r.Chance(0.4), ScopeStyle: r.Intn(5), Redirect: r.Chance(0.2)}
 		if r.Chance(0.15) {
@@ -105,9 +119,13 @@ func (p *authProp) Gen(r *Rand, tier string, idx int) any {
 		// one host hands its blobs over to another registry host
 		a := r.Intn(nh)
 		b := (a + 1 + r.Intn(nh-1)) % nh
-		ap.Hosts[a].Redirect, ap.Hosts[a].RedirectTo = false, b+1
-		ap.Hosts[a].ChangeAfter, ap.Hosts[a].NewScheme = 0, ""
-		ap.Hosts[b].ChangeAfter, ap.Hosts[b].NewScheme = 0, ""
+		// (not between two registries that share a host name: following such a redirect net/http
+		// itself keeps the Authorization header, by its own documented policy, whatever the library does)
+		if hostOnly(ap.Hosts[a].Name) != hostOnly(ap.Hosts[b].Name) {
+			ap.Hosts[a].Redirect, ap.Hosts[a].RedirectTo = false, b+1
+			ap.Hosts[a].ChangeAfter, ap.Hosts[a].NewScheme = 0, ""
+			ap.Hosts[b].ChangeAfter, ap.Hosts[b].NewScheme = 0, ""
+		}
 	}
 	ap.Cache = pick(r, []string{"none", "shared", "shared", "single"})
 	ap.OAuth2 = r.Chance(0.2)
